@@ -58,7 +58,7 @@ func wideFieldCase(r *gen.Rand, i int64) ([]byte, string) {
 
 // C10: field encodings and predicates depend only on the value.
 func C10(c *Ctx) {
-	n := c.N(600000, 30000000)
+	n := c.N(600000, 240000000)
 	for i := int64(0); i < n; i++ {
 		if !c.Mine(i) {
 			continue
